@@ -131,6 +131,8 @@ func newPkg(pkg *packages.Package, u *Universe) Package {
 				}
 
 				if named != nil {
+					// methods of a generic type: each receiver is its own instance of the type
+					named = named.Origin()
 					p.methods[named] = append(p.methods[named], x)
 				}
 			} else if x.Parent() == pkg.Types.Scope() {
@@ -324,6 +326,11 @@ func (p *pkgInfo) Functions() map[string]*types.Func {
 }
 
 func (p *pkgInfo) MethodsOf(n *types.Named, ptr bool) []*types.Func {
+	if n != nil {
+		// an instance of a generic type has the methods of its origin
+		n = n.Origin()
+	}
+
 	funcs, _ := p.methods[n]
 
 	if ptr {
